@@ -63,7 +63,7 @@ def build(tier, seed):
         'bounds': {'alphabet': [-1, 0, 1], 'max_len': L, 'dt': dts, 'T_over_dt': Q_RATIO if quick else T_RATIO,
                    'xi': Q_XI if quick else T_XI, 'long_families': fams},
         'required_classes': ['T<6dt', 'T>=6dt', 'T<dt', 'xi=0', 'xi>=0.9', 'leading-zero', 'multi-period', 'long-family',
-                             'entry:response_series', 'entry:nigam', 'entry:object', 'entry:object-reused', 'entry:object-defaults'],
+                             'entry:response_series', 'entry:nigam', 'entry:object', 'entry:object-reused', 'entry:object-defaults', 'dtype-variant'],
         'assumptions': ['oracle: 40-digit closed-form per-step solution (mpmath), witnessed by a longdouble evaluation and by the ODE residual',
                         'dt, T/dt and xi only on the finite menus; record values in {-1,0,1}',
                         'errors are normalised by the peak of the exact series; where that fails, by the peak of the exact continuous-time '
@@ -189,6 +189,39 @@ def run_case(case):
                         r.expect_close('leading-zero.acc', sub, a3[0], -recf, rtol=0, atol=1e-15 * amax,
                                        what='row of T=0 in the third series must be the sign-flipped record')
             r.transitions += 1
+    # ---- the record's container / dtype is not part of the quantifier: the same VALUES in an unsigned or narrow integer array, in a
+    # float32 array or a tuple give the same series as in float64 (all values of the alphabet are exactly representable in all of
+    # them once shifted to be non-negative)
+    if 'fam' not in case:
+        base_rec = [int(v) + 1 for v in rec]          # values in {0,1,2}
+        af = np.array(base_rec, dtype=float)
+        for ratio, xi in ((0.5, 0.05), (5.9, 0.0), (20, 0.5), (1000, 0.05)):
+            T = float(ratio * dt)
+            periods = np.array([0.0, T])
+            ok0, want = r.call('dtype', {'rec': rid, 'dt': dt, 'T/dt': ratio, 'xi': xi, 'input': 'float64'}, sdof.response_series, af, dt, periods, xi)
+            if not ok0:
+                continue
+            for nm, arr in (('uint8', np.array(base_rec, dtype=np.uint8)), ('int16', np.array(base_rec, dtype=np.int16)),
+                            ('uint16', np.array(base_rec, dtype=np.uint16)), ('float32', np.array(base_rec, dtype=np.float32)),
+                            ('tuple', tuple(base_rec))):
+                sub = {'rec': rid, 'dt': dt, 'T/dt': ratio, 'xi': xi, 'input': nm}
+                r.cls('dtype-variant')
+                for ename, fn in (('response_series', lambda: sdof.response_series(arr, dt, periods, xi)),
+                                  ('object', lambda: eqsig.AccSignal(arr, dt).response_series(response_times=periods, xi=xi))):
+                    if nm == 'tuple' and ename == 'object':
+                        continue
+                    ok, got = r.call('dtype', dict(sub, entry=ename), fn)
+                    if ok:
+                        r.n_cmp += 1
+                        try:
+                            same = all(np.asarray(x).shape == np.asarray(y).shape and np.allclose(np.asarray(x, dtype=float), np.asarray(y, dtype=float), rtol=1e-12, atol=0)
+                                       for x, y in zip(got, want))
+                        except Exception:
+                            same = False
+                        if not same:
+                            r.fail('dtype.same-values-same-response', dict(sub, entry=ename),
+                                   'the response of the record given as %s differs from the response of the same values as float64' % nm,
+                                   observed=got[0], expected=want[0])
     if nontriv:
         r.nontrivial += 1
     return r
